@@ -153,11 +153,12 @@ type runSpec struct {
 	EOFWith  bool
 	FailAt   int // -1: no fault; otherwise the source fails (sticky) once this many bytes were delivered
 	FailWith bool
+	FailErr  int // index into vk.FaultErrors: which error value the source fails with
 	Cons     []int
 }
 
 func (r runSpec) String() string {
-	return fmt.Sprintf("%s src=%v eofWith=%v failAt=%d failWith=%v cons=%v", r.Unwrap, r.Src, r.EOFWith, r.FailAt, r.FailWith, r.Cons)
+	return fmt.Sprintf("%s src=%v eofWith=%v failAt=%d failWith=%v failErr=%d cons=%v", r.Unwrap, r.Src, r.EOFWith, r.FailAt, r.FailWith, r.FailErr, r.Cons)
 }
 
 // inKnownClass recognises, from the bytes alone (reference parser, no kit code),
@@ -213,7 +214,7 @@ func firstDiff(a, b []byte) int {
 // on; or the stream yields exactly the original plaintext. With an injected
 // source fault an error must surface and the output must be a prefix.
 func judge(journal string, d *baseDoc, mutated []byte, validHdrs [][]byte, r runSpec) (what, detail string, outLen int, rejectedBy string) {
-	src := &vk.ScriptReader{Data: mutated, Chunks: r.Src, EOFWith: r.EOFWith, FailAt: r.FailAt, FailWith: r.FailWith}
+	src := &vk.ScriptReader{Data: mutated, Chunks: r.Src, EOFWith: r.EOFWith, FailAt: r.FailAt, FailWith: r.FailWith, Err: vk.FaultErrors[r.FailErr%len(vk.FaultErrors)]}
 	out, callErr, streamErr := enckit.Decrypt(journal, src, enc.DecryptOptions{UnwrapKeyFn: r.Unwrap.fn()}, r.Cons)
 	changed := !bytes.Equal(mutated, d.all) || !bytes.Equal(r.Unwrap.yields(d.man.WFK), d.fileKey)
 	fault := r.FailAt >= 0 && r.FailAt <= len(mutated)
